@@ -396,15 +396,15 @@ def run_history(case, ctx: Ctx) -> None:
                     if kind in ("create_table_soft", "drop_table_soft"):
                         # IF [NOT] EXISTS: with the schema there the statement succeeds whether or not the object is; what the property says about
                         # them is the context rule above (they need a context like any other) and that they act on the resolved object only
-                        if not schema_exists or (kind == "drop_table_soft" and tgt is not None and tgt["kind"] != "table"):
-                            if o.ok and kind == "create_table_soft":
+                        if not schema_exists or (tgt is not None and tgt["kind"] != "table"):
+                            if o.ok and kind == "create_table_soft" and not schema_exists:
                                 ctx.fail(f"C03|resolved-elsewhere|statement-on-missing-object-succeeded|ctx={why[ci]}", f"{sql} (context {m.ctx[ci]}) succeeded but {r0[1:3]} does not exist; catalogue {_catalogue(m)}")
                                 return
                             for k in range(ncon):
                                 observers(k, "ctx=" + why[k], dml=(k == ci))
                             if not scan("ctx=" + why[ci]):
                                 return
-                            continue  # (whether DROP .. IF EXISTS of a name in a missing schema, or of a view, is an error is not stated; the scan says nothing moved)
+                            continue  # (whether DROP .. IF EXISTS of a name in a missing schema, or either statement on a name that is a view, is an error is not stated; the scan says nothing moved)
                         if not o.ok:
                             ctx.fail(f"C03|resolved-elsewhere|raises|errno={o.errno}|ctx={why[ci]}", f"{sql} (context {m.ctx[ci]}) should act on {res}: {o}; catalogue {_catalogue(m)}")
                             return
